@@ -352,7 +352,7 @@ fn hexes(v: &[Vec<u8>]) -> Vec<String> { v.iter().map(|x| keys::hex(x)).collect(
 impl Check for C06 {
     fn id(&self) -> &'static str { "C06" }
     fn rule(&self) -> String {
-        "case = well-typed fragment of any base type (B,V,K,W) with <= 6 nodes in a random context (lane frag), or such a fragment after 1-2 random local edits -- re-wrap, un-wrap, other combinator, swapped children -- kept whenever the LIBRARY still types it (lane loose), or the value decode(encode(M)).substitute_raw_pkh(keys) with the type that value carries (lane derived); the independently encoded script is run by the reference interpreter on ALL input stacks found by lazy enumeration over the type alphabet (empty, 1, 2, 0x00, valid signature per key, a well-formed invalid signature, every key, right preimages, 32 zero bytes, 33-byte junk), once with all time locks satisfied and once with all unsatisfied; the library's stored type (z,o,n,u,d,f,s,e and base shape) is checked against every non-aborting run; every run is repeated on top of two extra elements. Non-trivial = >= 2 nodes, at least one satisfaction and (if the type allows) one dissatisfaction; distinct by (context, text).".into()
+        "case = well-typed fragment of any base type (B,V,K,W) with <= 6 nodes in a random context (lane frag), or such a fragment after 1-2 random local edits -- re-wrap, un-wrap, other combinator, swapped children -- kept whenever the LIBRARY still types it (lane loose), or the value decode(encode(M)).substitute_raw_pkh(keys) with the type that value carries, or sub-fragments of policy-compiler output with the types the compiler attached (lane derived); the independently encoded script is run by the reference interpreter on ALL input stacks found by lazy enumeration over the type alphabet (empty, 1, 2, 0x00, valid signature per key, a well-formed invalid signature, every key, right preimages, 32 zero bytes, 33-byte junk), once with all time locks satisfied and once with all unsatisfied; the library's stored type (z,o,n,u,d,f,s,e and base shape) is checked against every non-aborting run; every run is repeated on top of two extra elements. Non-trivial = >= 2 nodes, at least one satisfaction and (if the type allows) one dissatisfaction; distinct by (context, text).".into()
     }
     fn assumptions(&self) -> Vec<String> {
         vec![
@@ -381,6 +381,46 @@ impl Check for C06 {
             cfg.or_boost = if src.bool() { 4 } else { 1 };
         }
         let mut node = gen::gen(src, &cfg, &mut st, want, size);
+        if lane == "derived" && src.chance(1, 3) {
+            // sub-fragments of what the policy compiler builds (it attaches types through its own
+            // cast tables): stored type against execution
+            use std::str::FromStr;
+            let cctx = if ctx == Ctx::Bare { Ctx::Segwitv0 } else { ctx };
+            let pcfg = gen::PolCfg { max_leaves: 6, allow_const: false, distinct_keys: true, key_hex_ctx: cctx, named_keys: false, consistent_locks: true, max_weight: 5, allow_thresh: true, binary: true };
+            let pol = gen::gen_policy(src, &pcfg);
+            let text = pol.print();
+            let c = match miniscript::policy::Concrete::<crate::glue::DK>::from_str(&text) {
+                Ok(c) => c,
+                Err(_) => return Ok(()),
+            };
+            macro_rules! subs {
+                ($c:ty) => {{
+                    match c.compile::<$c>() {
+                        Ok(ms) => ms.iter().map(|m| (ast::from_lib(m), spec::from_lib(&m.ty))).collect::<Vec<_>>(),
+                        Err(_) => Vec::new(),
+                    }
+                }};
+            }
+            let all: Vec<(Node, T)> = match cctx {
+                Ctx::Legacy => subs!(Legacy),
+                Ctx::Tap => subs!(Tap),
+                _ => subs!(Segwitv0),
+            };
+            let cands: Vec<&(Node, T)> = all.iter().filter(|(n, _)| n.n_nodes() >= 2 && n.n_nodes() <= 8).collect();
+            if cands.is_empty() {
+                rep.class("derived:compiled-nothing");
+                return Ok(());
+            }
+            rep.class("derived:compiled");
+            for _ in 0..2 {
+                let (n2, t2) = *src.pick(&cands);
+                rep.desc = format!("{:?} sub-fragment {} of compile({})", cctx, ast::print(n2, true), text);
+                if check_typed(n2, cctx, *t2, rep)? {
+                    rep.nontrivial_by(&(cctx as u8, ast::print(n2, true)));
+                }
+            }
+            return Ok(());
+        }
         if lane == "derived" {
             // the library value obtained by decoding the script and substituting the key hashes
             // back (what the finalizer satisfies): its stored type against its own execution
